@@ -9,6 +9,7 @@ fits_s_iff_range fits_u_iff_range fits_iff_range get_ui_spec get_si_spec get_sx_
 get_d_bits_spec truncate53_clauses shiftZ_floor mpz_get_d_spec mpz_get_d_2exp_spec
 dblNum_decode extract_double_spec set_d_spec cmp_d_spec
 mpf_get_d_spec mpf_get_d_2exp_spec mpf_cmp_spec mpf_set_d_spec mpf_cmp_d_spec mpf_cmp_z_spec mpf_cmp_ui_spec mpf_cmp_si_spec
+mpf_fits_s_iff_range mpf_fits_u_iff_range mpf_fits_iff_range mpf_get_si_ui_spec mpf_integer_p_spec
 """.split()]
 TRUSTED = ["hand-written word-level models of mpn_get_d (IEEE branch), __gmp_extract_double and of the mpz/mpf comparison and "
            "conversion functions in lean/Mpir/Model/Conv.lean (tied by correspondence on every run, not by translation)",
